@@ -87,6 +87,8 @@ type machine struct {
 	domDecided int
 	openFiles map[*value]bool // file-handle model: handles returned by os.Open and not yet closed
 	zipContents map[string]value // zip content model: member name -> content registered by the harness
+	fileContents map[string]value // file content model: file name -> content registered by the harness
+	fileState map[*value]*fileState
 
 	// per-machine
 	globals   map[*ssa.Global]*value
